@@ -29,7 +29,8 @@ def range_enum(ctx):
         if not a["local"] or a["kind"] != "enum":
             continue
         for v in a["variants"]:
-            if len(v["fields"]) == 1 and "Range<u64>" in v["fields"][0]["ty"]:
+            ft = v["fields"][0]["ty"] if len(v["fields"]) == 1 else ""
+            if "Range<u64>" in ft and not ft.startswith("std::ops::Range<"):     # a *list* of ranges (SmallVec / Vec / slice), not one range
                 out.append((a["path"], v["name"]))
     if len(out) != 1:
         from ..check import FailClosed
